@@ -367,6 +367,7 @@ class PlainResource(Resource):
         super().__init__(name=name)
         assert not path or path.startswith("/")
         self._path = path
+        self._empty = not path
         # The form of the path that is matched against URL.path_safe.
         self._path_safe = path
 
@@ -382,6 +383,10 @@ class PlainResource(Resource):
         assert prefix.startswith("/")
         assert not prefix.endswith("/")
         assert len(prefix) > 1
+        if self._empty and self._path == "/":
+            # freeze() ran before the prefix was known (domain sub-app nested
+            # below a prefix): "" is the mount point itself, not "<prefix>/"
+            self._path = self._path_safe = ""
         self._path = prefix + self._path
         self._path_safe = _path_safe(prefix) + self._path_safe
 
